@@ -222,7 +222,8 @@ func oracleC12CLI(p *Pair, env *Env, a [][]byte) *Failure {
 		return f
 	}
 	cmp := runCLI(env, sb, nil, "-l", "disabled", "regex", "compare", arg)
-	if cmp.exit != 0 || !bytes.Contains(cmp.stdout, []byte("has not changed")) {
+	// the verdict of single-rule compare is its exit status (the wording of the message is not part of the property)
+	if cmp.exit != 0 {
 		return &Failure{What: "compare reports a change right after update", Detail: fmt.Sprintf("exit %d %q", cmp.exit, cmp.stdout)}
 	}
 	cmpAll := runCLI(env, sb, nil, "-l", "disabled", "-o", "github", "regex", "compare", "-a")
@@ -271,6 +272,34 @@ func oracleC12CLI(p *Pair, env *Env, a [][]byte) *Failure {
 	if cmpGh.exit == 0 {
 		return &Failure{What: "compare --all in GitHub mode exits 0 although a stored operand differs", Detail: fmt.Sprintf("%q", cmpGh.stdout)}
 	}
+	// update repairs the edit: the file is again what the first update wrote
+	rep := runCLI(env, sb, nil, "-l", "disabled", "regex", "update", arg)
+	after3, _ := os.ReadFile(filepath.Join(sb, rulesRel))
+	if rep.exit != 0 || !bytes.Equal(after3, after1) {
+		return &Failure{What: "update does not restore the generated regex after the stored operand was edited", Detail: fmt.Sprintf("exit %d\nafter first update %q\nafter repair %q", rep.exit, after1, after3)}
+	}
+	// the same with text put IN FRONT of the stored operand (the generated regex is then a suffix of what is stored)
+	lines = bytes.Split(after3, []byte("\n"))
+	for i, l := range lines {
+		if j := bytes.Index(l, gen.stdout); j >= 0 && bytes.Contains(l, []byte("@rx ")) {
+			lines[i] = append(append(append([]byte{}, l[:j]...), []byte("zq")...), l[j:]...)
+			pre := bytes.Join(lines, []byte("\n"))
+			rd3 := p.Impl(Op{"update.read", [][]byte{pre, []byte(id), bytes.Repeat([]byte{'x'}, k)}}, env.timeout)
+			if rd3.Status != "ok" || !bytes.Equal(rd3.Out[0], append([]byte("zq"), gen.stdout...)) {
+				break // the edit hit another place
+			}
+			_ = os.WriteFile(filepath.Join(sb, rulesRel), pre, 0o644)
+			if c := runCLI(env, sb, nil, "-l", "disabled", "regex", "compare", arg); c.exit == 0 {
+				return &Failure{What: "compare exits 0 although text was put in front of the stored operand", Detail: fmt.Sprintf("%q", c.stdout)}
+			}
+			rep = runCLI(env, sb, nil, "-l", "disabled", "regex", "update", arg)
+			after4, _ := os.ReadFile(filepath.Join(sb, rulesRel))
+			if rep.exit != 0 || !bytes.Equal(after4, after1) {
+				return &Failure{What: "update does not restore the generated regex when the stored operand ends with it", Detail: fmt.Sprintf("exit %d\nexpected %q\ngot %q", rep.exit, after1, after4)}
+			}
+			break
+		}
+	}
 	return nil
 }
 
@@ -286,7 +315,7 @@ func genUpdateCases(r *rand.Rand, tier string, prop string) []Case {
 			continue
 		}
 		tg := pick(r, rf.targets)
-		newRe := pick(r, []string{"new", `a\"b`, `x\"@rx y`, `$1${2}`, `(?i)a|b`, `[\s\x0b]`, "", `a b" \x`, `\x5c`, `^(?:sel)ect\b`})
+		newRe := pick(r, []string{"new", `a\"b`, `x\"@rx y`, `$1${2}`, `(?i)a|b`, `[\s\x0b]`, "", `a b" \x`, `\x5c`, `^(?:sel)ect\b`, " lead", "trail ", "  two", "\tTab", " ", `\$_(?:GET|POST)\[`, `[0-9]+\$$`, "old", "ld", "d"})
 		k := bytes.Repeat([]byte{'x'}, tg.chain)
 		base := [][]byte{[]byte(rf.content), []byte(tg.id), k, []byte(newRe)}
 		c := Case{Kind: "rules-file", Ops: []Op{{"update.apply", base}, {"update.read", base[0:3]}}}
